@@ -128,6 +128,8 @@ def _mk_state(ctx, sc, cfg):
     for k in ("W", "W0", "V2", "V1", "V0"):
         setattr(m, k, np.array(P[k], dtype=float))
     m.alpha = P["alpha"]
+    # an arbitrary state includes the number of steps already taken (any non-negative integer)
+    m.num_mcmc_steps = ctx.int("steps_done", 0)
     for k in ("tau", "phi2", "phi1", "phi0", "eta2", "eta1", "gam"):
         setattr(m, k, np.array(H[k], dtype=float))
     m.prec, m.tau0, m.eta0 = H["prec"], H["tau0"], H["eta0"]
